@@ -82,6 +82,8 @@ def run(ctx):
         detail = (s.results[0][1] if ok else bad[0][1] + f"  [calling context: {bad[0][2]}]")[:600]
         o = ctx.ob("P2", fn, f"{kind}", s.where, ok, detail + (f" ({len(s.results)} context(s))" if ok else f" ({len(bad)} of {len(s.results)} context(s) unproven)"))
     ctx.floor("P1", "panic-site obligations in the decoder-reachable set", 150, n)
+    from .common import import_length_predictor_agreement
+    import_length_predictor_agreement(ctx, "P2g")
     # unwrap/expect passed as a function value
     for b in prog.prod_bodies():
         if b.defp not in an.visited_fns and not ("handshake" in b.defp):
